@@ -1743,6 +1743,10 @@ func (s *st) streamTicket(sms []sample) {
 				{"srvsig-flipped", adIfRelevantPAC(func() []byte { m := append([]byte{}, sg.b...); m[sg.srvLo] ^= 1; return m }()), true, false},
 				{"truncated", adIfRelevantPAC(sg.b[:len(sg.b)-30]), true, false},
 				{"bad-offset", adIfRelevantPAC(func() []byte { m := append([]byte{}, sg.b...); m[8+8+3] = 0x40; return m }()), true, false},
+				// the PACTYPE header itself does not decode: still a PAC, and the request is refused
+				{"header-count-flipped", adIfRelevantPAC(func() []byte { m := append([]byte{}, sg.b...); m[2] ^= 0x10; return m }()), true, false},
+				{"truncated-in-header", adIfRelevantPAC(sg.b[:6]), true, false},
+				{"truncated-in-table", adIfRelevantPAC(sg.b[:8+16+5]), true, false},
 				{"no-pac", nil, false, true},
 				{"empty-if-relevant", types.AuthorizationData{{ADType: adtype.ADIfRelevant, ADData: []byte{0x30, 0x00}}}, false, true},
 				{"garbage-if-relevant", types.AuthorizationData{{ADType: adtype.ADIfRelevant, ADData: []byte{0x04, 0x01, 0x00}}}, false, true},
@@ -1862,3 +1866,36 @@ func (s *st) verifyAPREQ(sm sample, vname string, ad types.AuthorizationData, is
 			fmt.Sprintf("%s etype %d: ok=%v err=%v want accept=%v", sm.name, et, ok, verr, accept), vname)
 	}
 }
+
+// SignedPAC: the first sample PAC signed for a service whose key is srvKey of encryption type et (server checksum of the
+// checksum type that belongs to et; the KDC checksum under a random key of the same type); rodc >= 0 appends that
+// RODCIdentifier to both signature buffers ([MS-PAC] 2.8.1); tamper flips a bit inside the client-info buffer after
+// signing.  ok = false when et has no PAC checksum type.  For the streams of other properties that need a ticket
+// carrying a PAC (C01).
+func SignedPAC(c *hctx.Ctx, et int32, srvKey []byte, rodc int, tamper bool) (b []byte, ok bool) {
+	var ct int32
+	for _, t := range pacTypes {
+		if etypeOf(t) == et {
+			ct, ok = t, true
+		}
+	}
+	if !ok {
+		return nil, false
+	}
+	sm := samples()[0]
+	kdcKey := make([]byte, keyLen(ct))
+	c.R.Read(kdcKey)
+	sg := signPAC(withSigTypes(sm.bufs, ct, ct, rodc), nil, srvKey, kdcKey)
+	out := append([]byte{}, sg.b...)
+	if tamper {
+		if i := firstOf(sg.bufs, 10); i >= 0 {
+			out[sg.offs[i]+2] ^= 4
+		} else {
+			out[len(out)/2] ^= 4
+		}
+	}
+	return out, true
+}
+
+// ADIfRelevantPAC wraps PAC bytes as AD-IF-RELEVANT { AD-WIN2K-PAC }.
+func ADIfRelevantPAC(pacBytes []byte) types.AuthorizationData { return adIfRelevantPAC(pacBytes) }
